@@ -8,6 +8,7 @@ import logging
 
 from .kernel import Sim
 from .shims import QueueShim, ThreadingShim, TimeShim
+from .serialsim import SerialShim
 from .socksim import SelectShim, SimNet, SocketShim
 
 MODULES = {
@@ -19,6 +20,7 @@ MODULES = {
     "secsgem.common.tcp_connection": ("threading", "time", "select"),
     "secsgem.common.tcp_server_connection": ("threading", "time", "select", "socket"),
     "secsgem.common.tcp_client_connection": ("threading", "time", "socket"),
+    "secsgem.common.serial_connection": ("threading", "time", "serial"),
     "secsgem.hsms.protocol": ("threading", "queue"),
     "secsgem.gem.handler": ("threading",),
     "secsgem.gem.communication_state_machine": ("threading",),
@@ -26,7 +28,7 @@ MODULES = {
 }
 
 # functions containing `while flag: pass` busy-wait loops (traced line by line, lowest priority)
-SPIN_FUNCTIONS = ("_start_receiver", "disconnect")
+SPIN_FUNCTIONS = ("_start_receiver", "disconnect", "serial_connection.py:enable")  # SerialConnection.enable waits for its receiver thread
 
 
 class _RandomShim:
@@ -61,6 +63,7 @@ def simulation(sched_seed=0, switch_prob=0.0, preempts=(), preempt_prob=0.0, hot
         "select": SelectShim(net),
         "socket": SocketShim(net),
         "random": _RandomShim(system_counter),
+        "serial": SerialShim(net),
     }
     saved = []
     prev_disable = logging.root.manager.disable
